@@ -127,7 +127,7 @@ func list(n int, f func(i int) string) string {
 
 func dumpHeader(h *wire.BlockHeader) string {
 	return strings.Join([]string{u(uint64(uint32(h.Version))), hx(h.PrevBlock[:]), hx(h.MerkleRoot[:]),
-		u(uint64(uint32(h.Timestamp.Unix()))), u(uint64(h.Bits)), u(uint64(h.Nonce))}, ",")
+		u(hdrTime(h)), u(uint64(h.Bits)), u(uint64(h.Nonce))}, ",")
 }
 
 func dumpTx(t *wire.MsgTx) string {
@@ -1433,4 +1433,15 @@ func framedLoop(sub string) string {
 		}
 	}
 	return ""
+}
+
+// hdrTime is the header timestamp as the value the decoder produced: the wire field is an unsigned 32-bit
+// count of seconds, so a decoded header carries a time in [0, 2^32) and is dumped unmasked (seed C08-g: a
+// sign-extending decoder yields 1901..1969 for timestamps >= 2^31, which a uint32 mask would hide). The zero
+// time.Time of a header that was never decoded keeps the encoder's truncation.
+func hdrTime(h *wire.BlockHeader) uint64 {
+	if h.Timestamp.IsZero() {
+		return uint64(uint32(h.Timestamp.Unix()))
+	}
+	return uint64(h.Timestamp.Unix())
 }
